@@ -431,9 +431,21 @@ func caseC17Shapes(t TB, prog *Program) {
 	if err := db.Close(); err != nil {
 		fail("harness: Close: %v", err)
 	}
-	before := treeHash(root)
 	sameShape := shapeSig(w.zero(), false) == shapeSig(r.zero(), false)
 	sameTags := shapeSig(w.zero(), true) == shapeSig(r.zero(), true)
+	damaged := false
+	if dmg, _ := prog.Aux["damage"].(bool); dmg && !sameShape && len(uuids) > 0 {
+		// the directory also lost an object file while the program was being changed: the
+		// struct no longer matching the stored shape is still what every call must report
+		filepath.Walk(root, func(p string, info os.FileInfo, err error) error {
+			if err == nil && !info.IsDir() && !damaged && strings.HasPrefix(filepath.Base(p), uuids[len(uuids)-1]) {
+				os.Remove(p)
+				damaged = true
+			}
+			return nil
+		})
+	}
+	before := treeHash(root)
 
 	db = sod.Open(root)
 	defer db.Close()
@@ -608,6 +620,25 @@ func caseC17Settings(t TB, prog *Program) {
 		vshim.ReleaseAll()
 	}()
 	pendingAtSwitch := false
+	// ONE descriptor map is used for every schema handed to Create in this case, the way an
+	// application keeps its schema definition around (and may edit it in place later)
+	var liveFields sod.FieldDescMap
+	schemaOf := func(c Config) sod.Schema {
+		if liveFields == nil {
+			liveFields = sod.FieldDescriptors(&Doc{})
+			for p, k := range c.Cons {
+				if err := liveFields.Constraint(p, sod.Constraints{Index: k.Index, Unique: k.Unique, Upper: k.Upper, Lower: k.Lower}); err != nil {
+					panic(err)
+				}
+			}
+		}
+		sch := sod.NewCustomSchema(liveFields, c.Ext)
+		sch.Compress, sch.Cache = c.Compress, c.Cache
+		if c.Async != nil {
+			sch.Asynchrone(c.Async.Threshold, time.Duration(c.Async.TimeoutMs)*time.Millisecond)
+		}
+		return sch
+	}
 	opts := RunOpts{SweepLevel: 1, SweepEveryOp: true, Walk: true,
 		AfterOp: func(e *Env, i int, op *Op) {
 			where := fmt.Sprintf("op %d (%s)", i, op.Op)
@@ -639,7 +670,7 @@ func caseC17Settings(t TB, prog *Program) {
 				}
 				// the schema handed to Create may also carry another Compress flag: compression is a
 				// property of the stored collection, the stored setting keeps governing file names
-				sch := nc.Schema()
+				sch := schemaOf(nc)
 				if nc.Async == nil && op.Cfg.Ext == "explicit-off" {
 					// async writes switched off through an explicit, disabled settings value
 					sch.AsyncWrites = &sod.Async{Enable: false, Threshold: 2, Timeout: 300 * time.Millisecond}
@@ -656,6 +687,25 @@ func caseC17Settings(t TB, prog *Program) {
 				e.m.cfg = nc
 				if nc.Async != nil {
 					e.dirty = true
+				}
+				// an acknowledged settings change is on disk: a process restarted now runs with it
+				if ws := WalkDir(e.collDir()).Schema; ws == nil {
+					e.failf("%s: schema.json unreadable after Create", where)
+				} else {
+					if ws.Cache != nc.Cache {
+						e.failf("%s: Create switched the cache to %v, schema.json on disk says %v", where, nc.Cache, ws.Cache)
+					}
+					onDisk := ws.AsyncWrites != nil && ws.AsyncWrites.Enable
+					if onDisk != (nc.Async != nil) {
+						e.failf("%s: Create switched async writes to %v, schema.json on disk says %v", where, nc.Async != nil, onDisk)
+					}
+					if nc.Async != nil {
+						to, _ := time.ParseDuration(ws.AsyncWrites.Timeout)
+						if ws.AsyncWrites.Threshold != nc.Async.Threshold || to != time.Duration(nc.Async.TimeoutMs)*time.Millisecond {
+							e.failf("%s: Create set async writes to threshold %d / %d ms, schema.json on disk says %d / %s", where, nc.Async.Threshold, nc.Async.TimeoutMs, ws.AsyncWrites.Threshold, ws.AsyncWrites.Timeout)
+						}
+					}
+					e.flag("switch-reflected-in-schema-file")
 				}
 			case "switchBad":
 				nc := e.cfg
@@ -680,7 +730,24 @@ func caseC17Settings(t TB, prog *Program) {
 					c.Index = !c.Index
 					nc.Cons["S2"] = c
 				}
-				if err := e.db.Create(&Doc{}, nc.Schema()); !errors.Is(err, want) {
+				bad := nc.Schema()
+				var restore func()
+				if want == sod.ErrFieldDescModif && liveFields != nil && op.Ref%2 == 0 {
+					// the application edits the descriptor map it used before, in place
+					c := nc.Cons["S2"]
+					old := e.cfg.Cons["S2"]
+					liveFields.Constraint("S2", sod.Constraints{Index: c.Index, Unique: c.Unique, Upper: c.Upper, Lower: c.Lower})
+					restore = func() {
+						liveFields.Constraint("S2", sod.Constraints{Index: old.Index, Unique: old.Unique, Upper: old.Upper, Lower: old.Lower})
+					}
+					bad = schemaOf(e.cfg)
+					e.flag("incompatible-through-in-place-edit-of-the-descriptor-map")
+				}
+				err := e.db.Create(&Doc{}, bad)
+				if restore != nil {
+					restore()
+				}
+				if !errors.Is(err, want) {
 					e.failf("%s: Create with an incompatible schema returned %v, want %v", where, err, want)
 				}
 				// (the virtual clock is parked: nothing else can touch the directory)
@@ -731,7 +798,7 @@ func TestC17(t *testing.T) {
 		rapid.Check(t, func(rt *rapid.T) {
 			g := NewG(rt, &Profile{Property: "C17"})
 			prog := &Program{Property: "C17", Cfg: Config{Ext: ".json"}, Aux: map[string]interface{}{
-				"kind": "shapes", "writer": float64(g.uni(len(shapes), "writer")), "reader": float64(g.uni(len(shapes), "reader")),
+				"kind": "shapes", "damage": g.pct("damage") < 25, "writer": float64(g.uni(len(shapes), "writer")), "reader": float64(g.uni(len(shapes), "reader")),
 				"objects": float64(g.uni(6, "n")), "compress": g.pct("c") < 40, "cache": g.pct("k") < 40}}
 			guard(rt, prog, func() { caseC17Shapes(rt, prog) })
 		})
